@@ -1,6 +1,102 @@
-"""Shared Write-level (rtpDownTrack.Write / gotNACK / adjustLayer) conformance used by C01-C04."""
+"""Shared Write-level conformance used by C01-C04: executions of the real rtpDownTrack.Write / gotNACK /
+adjustLayer / handleReport / replaceTracks (in-package overlay harness in rtpconn) validated against
+Trace_Forward.tla.  Each property reports only its own clauses."""
+import json, os
 import common as C
+
+PREFIX = {"C01": ("P1_", "P2_"), "C02": ("C02_",), "C03": ("C03_",), "C04": ("C04_",)}
+
+KNOWN_TEXT = {
+    "F17": "F17 gotNACK re-runs Write on the cached packet, so the marker of a retransmitted last-of-frame packet of a "
+           "lower spatial layer is decided with the receiver's CURRENT spatial layer and differs from the first transmission",
+}
+
+
+def _cfg_with(w, base, name, repl):
+    d = C.stage_spec(w)
+    t = open(os.path.join(d, base)).read()
+    for a, b in repl:
+        t = t.replace(a, b)
+    open(os.path.join(d, name), "w").write(t)
+    return name
+
+
+def model_runs(rep, w, tier, cfgs, must_violate=()):
+    """cfgs: list of (cfg file, description, quick MaxHi or None)."""
+    for cfg, desc, quick_hi in cfgs:
+        name = cfg
+        if quick_hi is not None and tier != "thorough":
+            name = _cfg_with(w, cfg, "q_" + cfg, [("MaxHi = 6", "MaxHi = %d" % quick_hi)])
+        r = C.tlc(w, "Forward.tla", name, workers=C.NCPU, timeout=1500, heap="16g")
+        rep.model("%s (%s)" % (name, desc), r, exhaustive=True)
+        if r.violated or r.deadlock:
+            raise C.Inconclusive("Forward model %s violates %s: the model of the current design is wrong or the design is broken\n%s"
+                                 % (name, r.violated, r.out[-3000:]))
+        C.must_complete(r, name)
+    for cfg, what in must_violate:
+        r = C.tlc(w, "Forward.tla", cfg, workers=4, timeout=600)
+        rep.model("%s (faithful switch for %s; must violate)" % (cfg, what), r)
+        if not r.violated:
+            raise C.Inconclusive("model no longer reproduces %s with the switch off (%s)" % (what, cfg))
 
 
 def run_forward(rep, w, tier, pid, behaviours=None, replay=None):
-    rep.notes.append("forward-path composition tier not built yet")
+    thorough = tier == "thorough"
+    sd = C.seed()
+    binp = C.go_test_binary(w, "rtpconn", "rtpconn.test")
+    script = os.path.join(w, "fwd_script.json")
+    seqb = behaviours or []
+    n, ln = (200 if thorough else 40), (300 if thorough else 120)
+    if replay:
+        rp = json.load(open(replay))["replay"]
+        if rp.get("level") == "forward":
+            seqb, sd, n, ln = rp.get("seq", []), rp.get("seed", sd), rp.get("n", n), rp.get("len", ln)
+        else:
+            return
+    json.dump({"seq": seqb}, open(script, "w"))
+    trace = os.path.join(w, "trace_forward.ndjson")
+    env = dict(C.GOENV)
+    env.update({"VERIF_IN": script, "VERIF_OUT": trace, "VERIF_SEED": str(sd), "VERIF_N": str(n), "VERIF_LEN": str(ln)})
+    rc, out, _ = C.run([binp, "-test.run", "^TestVerifForward$", "-test.count=1"], cwd=w, env=env, timeout=1500)
+    if rc != 0:
+        # a panic in the forwarding path on well-formed packets: the harness died, nothing can be judged
+        raise C.Inconclusive("forward driver failed (exit %d):\n%s" % (rc, out[-3000:]))
+    events = C.read_ndjson(trace)
+    behs = C.split_behaviours(events)
+    v = C.tlc_trace(w, "Trace_Forward.tla", "Trace_Forward.cfg", trace, "trace_forward.ndjson", timeout=3000)
+    rep.traces(v.nbeh)
+    rep.cov["forward_trace_events"] = v.lines
+    kinds = {}
+    for e in events:
+        kinds[e["ev"]] = kinds.get(e["ev"], 0) + 1
+    rep.cov["forward_event_kinds"] = kinds
+    distinct = {json.dumps([e.get("off"), e.get("res"), e.get("f"), e.get("lb"), e.get("chg")], sort_keys=True)
+                for e in events if e.get("ev") == "W"}
+    rep.cases(len(events), len(distinct))
+    rep.cov["rule"] = (rep.cov.get("rule", "") + " | forward tier: one evaluation = one call of the real rtpDownTrack.Write / gotNACK / adjustLayer / "
+                       "handleReport / replaceTracks; distinct = distinct (offset, outcome, ground-truth flags, layer state before, changed-field set) tuples").strip(" |")
+    if behs:
+        b = behs[-1]["events"]
+        rep.sample({"forward_behaviour": b[0], "events": b[1:5]})
+        ns = [e for e in events if e.get("ev") == "N" and e.get("wr")]
+        if ns:
+            rep.sample({"nack_event": ns[0]})
+    if v.drift:
+        rep.drift("forward step differs from Layer I at trace line %d: %s" % (v.drift, json.dumps(events[v.drift - 1])[:400]))
+    for body in v.raw.prints("TRACE-KNOWN"):
+        parts = [x.strip().strip('"') for x in body.split(",")]
+        fid = parts[2]
+        if pid == "C03":
+            if any(k["id"] == fid for k in C.known_findings(pid)):
+                rep.known(fid, KNOWN_TEXT.get(fid, fid))
+            else:
+                rep.violation("known-finding signature %s matched but it is not listed in known_findings.json" % fid,
+                              {"level": "forward", "seed": sd, "n": n, "len": ln, "seq": seqb})
+    mine = PREFIX[pid]
+    for (line, nb, clause) in v.bads:
+        ev = events[line - 1] if 0 < line <= len(events) else {}
+        if clause.startswith(mine):
+            rep.violation("%s at forward trace line %d (behaviour %d): %s" % (clause, line, nb, json.dumps(ev)[:500]),
+                          {"level": "forward", "seed": sd, "n": n, "len": ln, "seq": seqb, "line": line, "clause": clause})
+        else:
+            rep.notes.append("clause %s of another property failed at line %d (reported by that property's check)" % (clause, line))
